@@ -99,6 +99,7 @@ func Krovak(this *SR) (forward, inverse Transformer, err error) {
 			return
 		}
 
+		lon, lat = x, y
 		return
 	}
 	return
